@@ -407,7 +407,7 @@ def _resolve(spec, objs, results):
 
 
 def _n_of(objs):
-    return max([len(o) for o in objs if isinstance(o, np.ndarray)] + [8])
+    return max([len(o) for o in objs if isinstance(o, (np.ndarray, list, tuple)) and not isinstance(o, str)] + [8])
 
 
 def _call_step(step, objs, results, findings, where, type_only, iso=None):
@@ -460,10 +460,12 @@ def _call_step(step, objs, results, findings, where, type_only, iso=None):
             raise ValueError(fn)
         except Exception as e:
             return ('exc', worlds.enc_exc(e, type_only))
-    o = _invoke(fn, args, kw, budget.limit_for(_n_of(objs)), findings, where, type_only)
+    # the step budget follows the size of this call's own arguments (not of the largest object in the pool)
+    call_n = _n_of([a_ for a_ in list(args) + list(kw.values())])
+    o = _invoke(fn, args, kw, budget.limit_for(call_n), findings, where, type_only)
     if iso is not None:
         # the same call, by value, in a process that has never run anything else
-        ref = iso.call(fn, args, kw, budget.limit_for(_n_of(objs)), type_only)
+        ref = iso.call(fn, args, kw, budget.limit_for(call_n), type_only)
         if ref[0] == 'harness' and 'cannot transfer' in str(ref[1]):
             return o          # an argument that cannot be pickled: no pristine-process verdict for this call
         if ref[0] == 'harness':
